@@ -21,6 +21,7 @@ import (
 )
 
 type c20Line struct {
+	Prefix    string // jq text evaluated before the spinning part of a Spin line (same evaluation)
 	Text      string // what the user types
 	Spin      bool   // the line prints its marker and then spins forever (must be interrupted)
 	Marker    string
@@ -38,6 +39,8 @@ type c20Transcript struct {
 }
 
 // c20RunSession runs `fq -n -i` (REPL on null) with the scripted lines.
+var c20SessionTimeout = 90 * time.Second
+
 func c20RunSession(lines []c20Line, interrupts bool, stopAtEnd bool) c20Transcript {
 	o := vos.New("-n", "-i")
 	o.Interrupt = make(chan struct{})
@@ -58,9 +61,9 @@ func c20RunSession(lines []c20Line, interrupts bool, stopAtEnd bool) c20Transcri
 		text := l.Text
 		if l.Spin {
 			if interrupts {
-				text = fmt.Sprintf("%q, (range(1e12) | select(false))", l.Marker)
+				text = fmt.Sprintf("%s%q, (range(1e12) | select(false))", l.Prefix, l.Marker)
 			} else {
-				text = fmt.Sprintf("%q", l.Marker)
+				text = fmt.Sprintf("%s%q", l.Prefix, l.Marker)
 			}
 		}
 		o.Lines = append(o.Lines, text)
@@ -109,7 +112,7 @@ func c20RunSession(lines []c20Line, interrupts bool, stopAtEnd bool) c20Transcri
 	}()
 	select {
 	case <-done:
-	case <-time.After(90 * time.Second):
+	case <-time.After(c20SessionTimeout):
 		tr.Timeout = true
 		return tr
 	}
@@ -124,7 +127,34 @@ func c20RunSession(lines []c20Line, interrupts bool, stopAtEnd bool) c20Transcri
 	return tr
 }
 
+// c20Abandoned: an evaluation that abandons a nested evaluation's iterator (first(eval(...))) and then keeps
+// running must still be cancellable by ONE interrupt: the abandoned nested evaluation is no longer in progress.
+func c20Abandoned(run *ev.Run) {
+	lines := []c20Line{
+		{Text: "1+1"},
+		{Spin: true, Prefix: `first(eval("\"inner\", 2")), `, Marker: "spin_abandoned", Interrupt: 1},
+		{Text: `"after"`},
+		{Text: "^D"},
+	}
+	saved := c20SessionTimeout
+	c20SessionTimeout = 20 * time.Second
+	defer func() { c20SessionTimeout = saved }()
+	ref := c20RunSession(lines, false, false)
+	got := c20RunSession(lines, true, false)
+	run.Eval(1)
+	run.Count("interp:abandoned-nested-eval-scenario", 1)
+	switch {
+	case got.Panic != "":
+		run.Violation("interp:panic", "abandoned-nested-eval session panicked\n"+trunc(got.Panic, 1500), nil)
+	case got.Timeout:
+		run.Violation("interp:stale-abandoned-nested-eval-swallows-interrupt", "`first(eval(\"\\\"inner\\\", 2\")), \"spin\", (range(1e12)|select(false))`: one interrupt delivered after the marker did not end the evaluation (the abandoned nested evaluation stays on top of the interrupt stack and receives the cancel)", nil)
+	case !ref.Timeout && (got.Stdout != ref.Stdout || got.Exit != ref.Exit):
+		run.Violation("interp:abandoned:output", "abandoned-nested-eval session: transcript differs from the uninterrupted reference:\n"+firstDiff(ref.Stdout, got.Stdout), nil)
+	}
+}
+
 func c20Interp(run *ev.Run) {
+	c20Abandoned(run)
 	n := run.Pick(24, 400)
 	for id := 0; id < n; id++ {
 		rng := gen.New(run.Seed).Fork(0xC2030000 + uint64(id))
